@@ -3,8 +3,6 @@
 package logic
 
 import (
-	"github.com/algorand/go-algorand/config"
-	"github.com/algorand/go-algorand/data/transactions"
 	vr "github.com/algorand/go-algorand/internal/verifrt"
 )
 
@@ -26,74 +24,6 @@ import (
 // pure-Go field library (ed25519verify*, ecdsa_*, vrf_verify, falcon_verify,
 // ec_* pairing ops, mimc, sumhash512) and bzero-style ops whose allocation size
 // is an operand are given small operands.
-
-var verifC31Skip = map[string]bool{
-	"ed25519verify": true, "ed25519verify_bare": true, "ecdsa_verify": true, "ecdsa_pk_decompress": true,
-	"ecdsa_pk_recover": true, "vrf_verify": true, "falcon_verify": true, "ec_add": true, "ec_scalar_mul": true,
-	"ec_pairing_check": true, "ec_multi_scalar_mul": true, "ec_subgroup_check": true, "ec_map_to": true,
-	"mimc": true, "sumhash512": true, "json_ref": true,
-	"sha256": true, "keccak256": true, "sha512_256": true, "sha3_256": true, "sha512": true,
-	// arithmetic whose step involves multi-word math/big division or long
-	// multiplication chains: their panic-freedom and results are decided by the
-	// C32 harnesses on bounded operands instead
-	"divmodw": true, "expw": true, "exp": true, "b*": true, "b/": true, "b%": true, "bsqrt": true, "sqrt": true,
-}
-
-func verifC31Proto() *config.ConsensusParams {
-	var p config.ConsensusParams
-	p.LogicSigVersion = LogicVersion
-	p.LogicSigMaxCost = 20000
-	p.LogicSigMaxSize = 1000
-	p.MaxAppProgramCost = 700
-	p.MaxTxGroupSize = 16
-	p.MaxTxnNoteBytes = 1024
-	p.MaxAppArgs = 16
-	p.MaxAppTotalArgLen = 2048
-	p.MaxAppTxnAccounts = 4
-	p.MaxAppTxnForeignApps = 8
-	p.MaxAppTxnForeignAssets = 8
-	p.MaxAppTotalTxnReferences = 8
-	p.EnableInnerTransactionPooling = true
-	p.EnableAppCostPooling = true
-	p.EnableLogicSigCostPooling = true
-	return &p
-}
-
-func verifC31Context(version uint64, program []byte) *EvalContext {
-	proto := verifC31Proto()
-	group := make([]transactions.SignedTxnWithAD, 1)
-	group[0].Txn.Type = "pay"
-	group[0].Lsig.Args = [][]byte{vr.Bytes("arg0", 2)}
-	// evaluation always runs with a signature-mode ledger facade (EvalSignature refuses a nil one)
-	ep := &EvalParams{Proto: proto, TxnGroup: group, SigLedger: NoHeaderLedger{}}
-	cx := &EvalContext{EvalParams: ep, runMode: ModeSig, groupIndex: 0, txn: &group[0], version: version}
-	cx.program = program
-	cx.pc = 1
-	cx.Stack = make([]stackValue, 0, 16)
-	cx.intc = []uint64{vr.U64("intc0"), vr.U64("intc1")}
-	cx.bytec = [][]byte{vr.Bytes("bytec0", 2)}
-	cx.instructionStarts = make([]bool, len(program)+1)
-	cx.branchTargets = make([]bool, len(program)+1)
-	return cx
-}
-
-func verifC31Operand(t StackType, label string) stackValue {
-	switch t.AVMType {
-	case avmUint64:
-		return stackValue{Uint: vr.U64(label)}
-	case avmBytes:
-		b := vr.Bytes(label, vr.Param(1, 2))
-		if b == nil {
-			b = []byte{}
-		}
-		return stackValue{Bytes: b}
-	default: // any
-		if vr.Bool(label + ".isbytes") {
-			return stackValue{Bytes: []byte{vr.U8(label + ".b")}}
-		}
-		return stackValue{Uint: vr.U64(label)}
-	}
-}
 
 func verifC31Step(lo, hi int) {
 	version := uint64(LogicVersion)
@@ -186,4 +116,3 @@ func VerifC31StepE0() { verifC31Step(0xe0, 0xf0) }
 
 //verif:harness prop=C31 reach=done unwind=70 values=300 budget=400 thorough.budget=2400
 func VerifC31StepF0() { verifC31Step(0xf0, 0x100) }
-
